@@ -17,8 +17,8 @@ EXPLANATION = (
     'uninterpreted CAST_t. z3 decides for an arbitrary index i that y[i] equals the documented recurrence computed in '
     'float64 and cast back, that the noise term is coeff * nu(i) with nu independent of the signal, and that the input '
     'store is never written unless in_place on a float64 array (inputs are read-only in the harness).')
-BOUNDS = {'quick': 'any length N >= 0 (symbolic), any real coeff, dtypes float64/float32/int16, in_place True/False; explicit axis: shapes (2,3) (3,2,2) (2,2,3) (2,3,2,2), every axis incl. negative, coeff 0.75; two calls on one object (second signal of the same length); torch: functional forms and nn.Module wrappers (real constructors) in train and eval mode',
-          'thorough': 'same; 8 shapes up to rank 4 for the explicit axis'}
+BOUNDS = {'quick': 'any length N >= 0 (symbolic), any real coeff, dtypes float64/float32/int16, in_place True/False; explicit axis: shapes (2,3) (3,1) (1,3) (3,0) (2,1,2) (3,2,2) (2,2,3) (2,3,2,2), every axis incl. negative, coeff 0.75; two calls on one object (second signal of the same length); torch: functional forms and nn.Module wrappers (real constructors) in train and eval mode',
+          'thorough': 'same; 15 shapes up to rank 4 for the explicit axis, seven of them with axes of length 1 or 0'}
 OUTSIDE = ['distribution of the noise (zero mean, standard deviation coeff): statistical statement about NumPy\'s / torch\'s generator',
            'the deprecated axis argument of Dither (Preemphasize along an explicit axis is checked on fixed small shapes, object-array mode)', 'value of float64 rounding itself']
 ASSUMPTIONS = ['np.random.normal(0, c, shape)[i] == c * nu(rng_state, i) with nu a function of the generator state and the index only (documented scale family); same state => same nu',
